@@ -600,6 +600,10 @@ func stringPartFunc(rtParams FunctionParameterTypes, val any, fn func(string, in
 		return "", fmt.Errorf("parameter must be an integer")
 	}
 
+	if param.IsNegative() {
+		return "", fmt.Errorf("parameter must not be negative")
+	}
+
 	paramAsInt := int(param.IntPart())
 
 	if valIfc, ok := val.(string); ok {
